@@ -33,6 +33,25 @@ def made():
     # removal by the other administrator, by oneself, then re-commissioning
     s.append([com(1), com(2), rd(1), rd(2), C(2, "remove", idx=1), rd(1, False), rd(2, False), rd(1), com(1), rd(1), rd(2, False)])
     s.append([com(1), com(2), C(1, "remove", idx=1), rd(2, False), rd(1), com(1), rd(1), rd(2, False)])
+    # a fabric with several operational sessions is removed (all of them must go), the index is re-used
+    case = lambda c: {"op": "Case", "c": c}
+    s.append([com(1), com(2), rd(2), case(2), C(1, "remove", idx=2), rd(2, False), com(2), rd(2, False), rd(2), rd(1)])
+    s.append([com(1), case(1), case(1), com(2), case(2), rd(1), rd(2), C(2, "remove", idx=1), rd(1, False), com(1), rd(1, False), rd(1), rd(2)])
+    s.append([com(1), com(2), case(2), case(1), case(2), case(2), C(2, "remove", idx=2), rd(2, False), rd(1, False), com(2), rd(2, False), rd(2)])
+    s.append([com(1), com(2), case(2), case(2), C(2, "arm"), C(1, "remove", idx=2), w(70000), rd(1), com(2), rd(2)])
+    s.append([com(1), case(1), com(2, False), case(2), case(2), w(61000), rd(2, False), rd(1), com(2), rd(2)])
+    # a committed write of one administrator while the other one's fail-safe is armed (rolled back / completed)
+    s.append([com(1), com(2), C(2, "arm"), C(1, "label"), w(70000), {"op": "Restart"}, rd(1), rd(2)])
+    s.append([com(1), com(2), C(2, "arm"), C(1, "label"), C(2, "complete"), w(3000), {"op": "Restart"}, rd(1)])
+    s.append([com(1), {"op": "Pase", "c": 2}, C(2, "csr", via="pase"), C(1, "label"), w(70000), {"op": "Restart"}, rd(1)])
+    # a root certificate staged in one fail-safe context is not there in the next one
+    s.append([{"op": "Pase", "c": 1}, C(1, "root", via="pase"), w(61000), {"op": "Pase", "c": 1}, C(1, "csr", via="pase"), C(1, "noc", via="pase"), w(61000), com(2), rd(2)])
+    s.append([{"op": "Pase", "c": 1}, C(1, "csr", via="pase"), C(1, "root", via="pase"), C(1, "arm0", via="pase"), {"op": "Pase", "c": 1}, C(1, "csr", via="pase"), C(1, "noc", via="pase"), C(1, "root", via="pase"), C(1, "noc", via="pase"), w(61000)])
+    s.append([com(1), C(1, "arm"), C(1, "root"), C(1, "arm0"), {"op": "Pase", "c": 2}, C(2, "csr", via="pase"), C(2, "noc", via="pase"), w(61000), rd(1)])
+    # administrators replaced again and again (fabric indices beyond the table size), then a factory reset
+    s.append([com(1), com(2), C(2, "remove", idx=1), com(1), C(1, "remove", idx=2), com(2), C(2, "remove", idx=3), com(1), C(1, "remove", idx=4), com(2), C(2, "remove", idx=5),
+              rd(2), {"op": "Restart"}, rd(2), {"op": "FactoryReset"}, rd(2, False), com(1), rd(1)])
+    s.append([com(1), com(2), C(1, "label"), w(3000), {"op": "FactoryReset"}, rd(1, False), rd(2, False), com(2), rd(2), {"op": "Restart"}, rd(2)])
     # fail-safe armed by one administrator, touched by the other
     s.append([com(1), com(2), C(1, "arm"), C(2, "arm0"), C(1, "complete"), C(1, "arm"), C(2, "arm"), C(1, "arm0"), rd(1), rd(2)])
     # the armed-for fabric disappears before the expiry
@@ -63,7 +82,7 @@ def foreign_pase(r):
     """The rejected state follows a credential command over a PASE session of another administrator than the one whose
     PASE session armed the fail-safe (open finding F-C08d)."""
     armed_by, prev_armed, last = None, False, None
-    for x in r["run"][:r["at"]]:
+    for x in r["run"][:r["at"] - 1]:                 # r["at"] is the 1-based position of the rejected event
         if x.get("ev") == "Op":
             last = x
         elif x.get("ev") == "State":
